@@ -135,6 +135,72 @@ def check_exact_lifts(ix, rep):
     return n
 
 
+def check_exact_division(ix, rep):
+    """the bounds the pastifier and the explainer compute stay exact: they are compared with, added to and divided by Fractions, and the discrete
+    transformer asks for `.numerator` / `.denominator`.  `x * U[a] / U[b]` is exact when x is a Fraction and a *float* when x is an int -- and
+    the parser's own rewrites build bounds as plain ints (`Interval(0, end)` for unless, the pastifier's `[d,d]` delays).  In the bound
+    conversions outside the dense-time interpreter (which works in floats by design) -- the discrete time_unit_transformer, the normalisers of
+    rtamt/pastifier and what the explainer derives from them -- every true division has an operand that is a Fraction by construction: a
+    `Fraction(...)` call, a name bound to one, or the result of a helper all of whose returns are."""
+    scope = []
+    for mod in sorted(ix.modules.values(), key=lambda m: m.rel):
+        for fn in ast.walk(mod.tree):
+            if isinstance(fn, ast.FunctionDef):
+                if mod.rel.startswith('rtamt/pastifier/') or (mod.rel.startswith('rtamt/explanation/') and 'bounds' in fn.name) \
+                        or (mod.rel == 'rtamt/semantics/discrete_time_interpreter.py' and fn.name == 'time_unit_transformer'):
+                    scope.append((mod, fn))
+    # helpers whose result is a Fraction by construction (fixed point)
+    fr_funcs = set()
+    for _round in range(4):
+        for mod, fn in scope:
+            names = _fraction_names(fn, fr_funcs)
+            rets = [r.value for r in ast.walk(fn) if isinstance(r, ast.Return) and r.value is not None]
+            if rets and all(all(_has_fraction(e, names, fr_funcs) for e in (r.elts if isinstance(r, ast.Tuple) else [r])) for r in rets):
+                fr_funcs.add(fn.name)
+    n = 0
+    for mod, fn in scope:
+        names = _fraction_names(fn, fr_funcs)
+        for d in ast.walk(fn):
+            if isinstance(d, ast.BinOp) and isinstance(d.op, ast.Div):
+                txt = ast.unparse(d)
+                n += 1
+                if _has_fraction(d.left, names, fr_funcs) or _has_fraction(d.right, names, fr_funcs):
+                    rep.ok('R-EXACT', mod.rel, fn.name, 'division:%s' % txt[:40], 'an operand is a Fraction by construction', d.lineno)
+                else:
+                    rep.fail('R-EXACT', mod.rel, fn.name, 'division:%s' % txt[:40], '`%s` is a true division without a Fraction operand: exact while the bound is a Fraction, a float as soon '
+                             'as it is a plain int -- and `unless[a,b]` and the pastifier\'s delays build their bounds as ints: the discrete transformer then fails on '
+                             '`.numerator` (AttributeError from update() on a supported formula) or rounds' % txt[:60], d.lineno)
+    return n
+
+
+def _fraction_names(fn, fr_funcs):
+    names = set()
+    for _ in range(3):
+        for st in ast.walk(fn):
+            if isinstance(st, ast.Assign) and len(st.targets) == 1:
+                t = st.targets[0]
+                if isinstance(t, ast.Name) and _has_fraction(st.value, names, fr_funcs):
+                    names.add(t.id)
+                elif isinstance(t, ast.Tuple) and isinstance(st.value, ast.Call) and _callee_name(st.value) in fr_funcs:
+                    names |= {x.id for x in t.elts if isinstance(x, ast.Name)}
+    return names
+
+
+def _callee_name(c):
+    return c.func.id if isinstance(c.func, ast.Name) else (c.func.attr if isinstance(c.func, ast.Attribute) else None)
+
+
+def _has_fraction(e, names, fr_funcs=()):
+    for x in ast.walk(e):
+        if isinstance(x, ast.Call) and _callee_name(x) == 'Fraction':
+            return True
+        if isinstance(x, ast.Call) and _callee_name(x) in fr_funcs:
+            return True
+        if isinstance(x, ast.Name) and x.id in names:
+            return True
+    return False
+
+
 def check_decimal_of_number(ix, rep):
     """`Decimal(x)` is the decimal the *text* x spells; of a Python float it is the binary fraction the float holds (Decimal(0.1) =
     0.1000000000000000055...).  Values declared through the API (`declare_const('T', 'float', 0.1)`) reach the literal conversion as the
@@ -305,6 +371,8 @@ def check(ix, rep):
     rep.floor('sampling settings read from the ast', npa, 2)
     nrb = unitflow.check_raw_bounds(ix, rep)
     rep.floor('functions reading the bounds of a timed node', nrb, 3)
+    nxd = check_exact_division(ix, rep)
+    rep.floor('true divisions of time quantities outside the dense interpreter', nxd, 3)
     ndn = check_decimal_of_number(ix, rep)
     rep.floor('Decimal(...) conversions in the front end', ndn, 1)
     nl = check_exact_lifts(ix, rep)
